@@ -114,7 +114,7 @@ PROPS = {
     "C19": {
         "theorems": ["C19_accepted_only_nse", "C19_rejected_405", "C19_get_issued_only_if", "C19_post_otherwise", "C19_get_when_fits"],
         "suites": [{"name": "getpost", "quick": 1500, "thorough": 40000}, {"name": "negotiate", "quick": 600, "thorough": 20000}],
-        "required_tags": ["getpost.issued:GET", "getpost.issued:POST", "getpost:limit-fits", "getpost:limit-over", "getpost:rejected", "getpost.codec:px"],
+        "required_tags": ["getpost.idem:true", "getpost.issued:GET", "getpost.issued:POST", "getpost:limit-fits", "getpost:limit-over", "getpost:rejected", "getpost.codec:px"],
         "trivial_tags": [],
         "level_text": "wip", "level_note": "wip",
     },
@@ -143,7 +143,7 @@ PROPS = {
         "theorems": [],
         "suites": [{"name": "concurrent", "quick": 400, "thorough": 6000}, {"name": "histories", "quick": 300, "thorough": 4000}, {"name": "restbind", "quick": 600, "thorough": 20000}],
         "race": [{"name": "concurrent", "quick": 150, "thorough": 3000}],
-        "required_tags": ["restbind.httpbody:upload-rest", "concurrent:duplex", "concurrent:valid", "concurrent:corrupt", "pool.trace:concurrent", "pool.trace:history"],
+        "required_tags": ["restbind.httpbody:upload-rest", "interleave:malformed-after-reply", "concurrent:duplex", "concurrent:valid", "concurrent:corrupt", "pool.trace:concurrent", "pool.trace:history"],
         "trivial_tags": [],
         "level_text": "wip", "level_note": "wip",
     },
